@@ -106,6 +106,12 @@ def replay_bbox(c):
     from photutils.aperture import ApertureMask
     img = np.arange(c['ny'] * c['nx'], dtype=float).reshape(c['ny'], c['nx']) + 1.0
     am = ApertureMask(np.ones((iy1 - iy0, ix1 - ix0)), b)
+    sl2 = am.get_overlap_slices((c['ny'], c['nx']))          # the mask's own entry point must select the same pixels
+    got2 = None if sl2[0] is None else {'large': [[sl2[0][0].start, sl2[0][0].stop], [sl2[0][1].start, sl2[0][1].stop]],
+                                        'small': [[sl2[1][0].start, sl2[1][0].stop], [sl2[1][1].start, sl2[1][1].stop]]}
+    if got2 != exp:
+        out.append(('overlap_slices_select_common_pixels', {'what': 'mask.get_overlap_slices'}, {'case': c, 'got': got2}))
+        return out
     cut = am.cutout(img, fill_value=-1.0)
     ref = np.full((iy1 - iy0, ix1 - ix0), -1.0)
     for r in range(iy0, iy1):
@@ -201,7 +207,7 @@ def run(ctx):
     ctx.nontrivial += sum(1 for c in cases if any(0 < v < c['s'] ** 2 for row in c['upper'] for v in row) or c['s'] == 1)
     ctx.sample({'kind': 'GEN mask case', **{k: cases[len(cases) // 2][k] for k in ('shape', 'cx', 'cy', 'q', 's', 'box', 'lower', 'upper')}})
     n = 1200 if q else 20000
-    recs = core.pmap(record_mask, [ctx.seed * 2654435 + i for i in range(n)], chunksize=16)
+    recs = core.pmap(record_mask, [ctx.seed * 2654435 + i for i in range(n)], chunksize=16, on_raise='drop')
     ver = core.validate_batch(ctx, 'Trace_ApMask', recs, 'Trace:ApMask')
     for r in recs:
         v = ver[r['id']]
